@@ -121,7 +121,7 @@ func (e *Enc) instr(fr *Frame, b *ssa.BasicBlock, ins ssa.Instruction, guard T, 
 		}
 		e.storeAt(st, p, e.zeroValFor(et))
 		fr.vals[x] = p
-		if !x.Heap {
+		if !x.Heap || closureOnly(x) {
 			e.privateCells = append(e.privateCells, privateCell{p, et})
 		}
 	case *ssa.BinOp:
